@@ -9,6 +9,7 @@ mod scen_buf;
 mod scen_exec;
 mod scen_grid;
 mod scen_loops;
+mod scen_parse;
 mod scen_prog;
 mod scen_stack;
 mod stategen;
@@ -63,6 +64,8 @@ fn main() {
                     &mut out,
                 ),
                 "steps" => scen_prog::run_steps(seed, tier, args.get(5).map(|s| s.as_str()).unwrap_or("*"), &mut out),
+                "parse" => scen_parse::run(seed, tier, &mut out),
+                "roundtrip" => scen_parse::run_rt(seed, tier, &mut out),
                 "loops" => scen_loops::run(seed, tier, &mut out),
                 "run" => scen_prog::run_runs(seed, tier, &mut out),
                 "buf" => scen_buf::run(seed, tier, &mut out),
@@ -99,6 +102,8 @@ fn main() {
                         };
                         match kind.as_str() {
                             "stackop" => scen_stack::replay(&xs[1..]),
+                            "parse" => scen_parse::replay_parse(&xs[1..]),
+                            "roundtrip" => scen_parse::replay_rt(&xs[1..]),
                             "bufseq" => scen_buf::replay(&xs[1..]),
                             "exec" => scen_exec::replay_exec(&xs[1..]),
                             "step" => scen_exec::replay_step(&xs[1..]),
